@@ -26,7 +26,7 @@
     the feature ordering is a strict weak order
   Carried by the exhaustive small-scope correspondence + executable set-of-bases spec only
   (see DESIGN.md): the error paths of connect (inputs that bridge the origin but cannot be split);
-  extension of reverse-strand multi-exon locations and of multi-exon locations wrapping over a record edge (forward multi-exon on a line / without wrap: `extend_multi_exact`; reverse-strand origin-spanning span: `extend_ring_area_rev_exact`); offset of multi-exon gene locations.
+  extension of multi-exon locations wrapping over a record edge (multi-exon on a line / without wrap, both strands: `extend_multi_exact`, `extend_multi_rev_exact`; reverse-strand origin-spanning span: `extend_ring_area_rev_exact`); offset of multi-exon gene locations.
 -/
 import ASV.Proofs.LocOrder
 import ASV.Proofs.LocString
@@ -369,6 +369,21 @@ theorem extend_multi_exact (p0 pn : Part) (mid : List Part) (d mx : Int) (circ :
   | true =>
     obtain ⟨hb, h1, h2⟩ := hc rfl
     exact extend_ring_multi_nowrap_eq p0 pn mid d mx hs hb hsep h0 hn hd h1 h2
+
+/-- the same for a reverse-strand location (parts in Biopython's descending order) -/
+theorem extend_multi_rev_exact (p0 pn : Part) (mid : List Part) (d mx : Int) (circ : Bool)
+    (hs : (Loc.compound (p0 :: (mid ++ [pn])).reverse).strand = .rev)
+    (hsep : p0.hi ≤ pn.lo) (h0 : p0.lo < p0.hi) (hn : pn.lo < pn.hi) (hd : 0 ≤ d) (hmx : pn.hi ≤ mx) (hlo : 0 ≤ p0.lo)
+    (hc : circ = true → bridgesOrigin (Loc.compound (p0 :: (mid ++ [pn])).reverse) = false ∧ pn.hi + d ≤ mx ∧ d ≤ p0.lo) :
+    ∃ r, extendLocation (.compound (p0 :: (mid ++ [pn])).reverse) d mx circ = .ok r ∧
+      ∀ i, r.mem i = true ↔ ((Loc.compound (p0 :: (mid ++ [pn])).reverse).mem i = true ∨
+        (max 0 (p0.lo - d) ≤ i ∧ i < p0.lo) ∨ (pn.hi ≤ i ∧ i < min (pn.hi + d) mx)) := by
+  refine ⟨_, extend_multi_rev_eq p0 pn mid d mx circ hs hsep h0 hn hd hmx hlo hc, fun i => ?_⟩
+  rw [mem_reverse_compound, mem_reverse_compound]
+  exact extend_line_multi_mem p0 pn mid d mx h0 hn hd hmx hlo i
+
+example : extendLocation (.compound [⟨50, 60, .rev⟩, ⟨30, 40, .rev⟩, ⟨10, 20, .rev⟩]) 15 100 false
+    = .ok (.compound [⟨50, 75, .rev⟩, ⟨30, 40, .rev⟩, ⟨0, 20, .rev⟩]) := by rfl
 
 example : extendLocation (.compound [⟨10, 20, .fwd⟩, ⟨30, 40, .fwd⟩, ⟨50, 60, .fwd⟩]) 15 100 false
     = .ok (.compound [⟨0, 20, .fwd⟩, ⟨30, 40, .fwd⟩, ⟨50, 75, .fwd⟩]) := by rfl
